@@ -183,7 +183,12 @@ def edit_case(case, ctx):
                     t = t.repeat(B, 1, 1)
                 margs.append(t)
                 tens.append((t, t.clone()))
-        Y = _call(multisubstitute, ok, op, X, margs, spacing, start=p, alphabet=alpha)
+        sp_arg = list(spacing) if isinstance(spacing, list) else spacing
+        Y = _call(multisubstitute, ok, op, X, margs, sp_arg, start=p, alphabet=alpha)
+        require(sp_arg == spacing, "multisubstitute-spacing-list-modified", lambda: "spacing %r became %r" % (spacing, sp_arg))
+        if ok and isinstance(sp_arg, list):
+            Y2 = _call(multisubstitute, ok, op, X, margs, sp_arg, start=p, alphabet=alpha)     # re-using the same list object
+            require(torch.equal(Y, Y2), "multisubstitute-second-call-differs", "same arguments (same spacing list object) gave a different result")
         require(torch.equal(X, Xc), "multisubstitute-input-modified", "")
         for t, tc in tens:
             require(torch.equal(t, tc), "multisubstitute-motif-modified", "")
